@@ -274,3 +274,12 @@ Print Assumptions c05_bind_finish.
 Example c05_bind_example :
   let s := run bst bstep (binit 2) [0;0;1;1;0;0;2;2;0]%nat in bfin s = Some 0 /\ bfired s = true /\ all_sealed (btargets s) = true.
 Proof. exact af_bind_example. Qed.
+
+(* reset() of a never-activated dependency whose condition had been published with the establishing value (negative count,
+   _established set by the sticky check_established()): equal to a fresh dependency again.  c05_dep_reset (above, for every
+   state) depends on reset clearing _established/_ready unconditionally (reset_* targets on GraphDependency::reset). *)
+Example c05_dep_reset_example :
+  let c := {| has_cond := true; holds := true |} in
+  let s := run dst (dstep c) dinit [1;1;1]%nat in
+  est s = true /\ pa s = A0 /\ wn s = -1 /\ dreset s = dinit.
+Proof. exact af_dep_reset_example. Qed.
